@@ -78,6 +78,7 @@ CLASSES = [
     ('UReversible', uc.UReversible, 'iterable'),
     ('UGenList', uc.UGenList, 'seq'),
     ('UGenList2', uc.UGenList2, 'seq'),
+    ('UGenDict', uc.UGenDict, 'map'),
     ('UGenPlain', uc.UGenPlain, 'plain'),
     ('EColor', uc.EColor, 'enum'),
     ('ENum', uc.ENum, 'intenum'),
@@ -107,7 +108,7 @@ HASHABLE_ATOMS = ['object', 'int', 'bool', 'float', 'complex', 'str', 'bytes', '
                   'USeq', 'UColl', 'dict_values']
 HASHABLE_DEEP = ['tuple', 'frozenset']
 NEEDS_HASHABLE_ITEMS = ['set', 'frozenset', 'dict', 'defaultdict', 'OrderedDict', 'Counter',
-                        'ChainMap', 'dict_keys', 'USet', 'UMap']
+                        'ChainMap', 'dict_keys', 'USet', 'UMap', 'UGenDict']
 
 STR_CONSTS = {'': 0, 'a': 1, 'b': 2, 'ab': 3, 'r': 4, 'g': 5}
 BYTES_CONSTS = {b'': 0, b'a': 1, b'b': 2}
